@@ -42,7 +42,9 @@ Numeric(name, args) ==
          [] name = "/"  -> \* left to right; exact results only (rationals are outside the model)
                            IF Len(ns) = 0 THEN PErr(OOM("/ without arguments"))
                            ELSE IF Len(ns) = 1 THEN
-                                  (IF ns[1].n = 0 THEN PErr(CBadValue)
+                                  \* Unspecified: `/ 0`.  "/ $y is equivalent to / 1 $y" (an exception) and "when
+                                  \* $x-num is exact 0 and no $y-num is exact 0, the result is exact 0" disagree.
+                                  (IF ns[1].n = 0 THEN PErr(OOM("Unspecified: / 0"))
                                    ELSE IF ns[1].n \in {1, -1} THEN NumResult(ns[1].n) ELSE PErr(OOM("rational number")))
                            ELSE IF \E i \in 2..Len(ns) : ns[i].n = 0 THEN PErr(CBadValue)   \* "Dividing by exact 0 raises an exception"
                            ELSE LET d == ProdFrom(ns, 2, 1) IN
@@ -84,6 +86,7 @@ KindBytes(v) == CASE v.k = "nil" -> <<110,105,108>> [] v.k = "bool" -> <<98,111,
                   [] v.k = "str" -> <<115,116,114,105,110,103>> [] v.k = "num" -> <<110,117,109,98,101,114>>
                   [] v.k = "list" -> <<108,105,115,116>> [] v.k = "map" -> <<109,97,112>>
                   [] v.k = "fn" -> <<102,110>> [] v.k = "exc" -> <<101,120,99,101,112,116,105,111,110>>
+                  [] OTHER -> <<63>>
 
 Pure(name, args) ==
   CASE name \in NumericNames -> Numeric(name, args)
@@ -94,7 +97,8 @@ Pure(name, args) ==
                                            ELSE POut(<<VBool(~ValEq(args[1], args[2]))>>))
     [] name = "not"  -> Exactly(1, args, POut(<<VBool(~Truthy(args[1]))>>))
     [] name = "bool" -> Exactly(1, args, POut(<<VBool(Truthy(args[1]))>>))
-    [] name = "kind-of" -> POut([i \in 1..Len(args) |-> VStr(KindBytes(args[i]))])
+    [] name = "kind-of" -> IF \E i \in 1..Len(args) : args[i].k = "reason" THEN PErr(OOM("kind of an opaque value"))
+                           ELSE POut([i \in 1..Len(args) |-> VStr(KindBytes(args[i]))])
     [] name = "num" -> Exactly(1, args,
                          LET c == AsNum(args[1]) IN
                          IF c.cls = "int" THEN POut(<<VNum(c.n)>>)
